@@ -109,11 +109,14 @@ def run(ctx):
         if any(r.get("r") in ("panic", "abort", "timeout") for r in rep):
             oracle_fail.append({"why": "selecting a configuration crashes", "config": [l, s, c], "replies": [r for r in rep if r.get("r") != "ok"][:2], "lines": lines})
             continue
-        if hk.get("r") != "ok":
-            if any(r.get("r") == "err" for r in rep[1:4]):
-                # a rejected preference value: the model must agree that resolution fails
-                if mres.get("r") == "ok" and all(v is not None for _, v in mres["v"]["files"]):
-                    oracle_fail.append({"why": "selecting a language/style/code fails although the fallback chain resolves every file", "config": [l, s, c], "replies": [r for r in rep if r.get("r") != "ok"][:2], "lines": lines})
+        rejected = [r for r in rep[1:4] if r.get("r") == "err" and "Improper format" not in (r.get("msg") or "")]
+        if rejected:
+            # a preference value rejected for another reason than its format: the model must agree that resolution fails
+            # (an unknown language, region, style or code falls back instead)
+            if mres.get("r") == "ok" and all(v is not None for _, v in mres["v"]["files"]):
+                oracle_fail.append({"why": "selecting a language/style/code fails although the fallback chain resolves every file", "config": [l, s, c], "replies": rejected[:2], "lines": lines})
+            continue
+        if hk.get("r") != "ok" or any(r.get("r") == "err" for r in rep[1:4]):
             continue
         root = core.rules_dir()
         impl_files = {n: os.path.relpath(p, root) for n, p in hk["v"]}
